@@ -406,8 +406,8 @@ common::register! {
     q_sdes_1x1 = sdes::<_, 1, 1, 536> => 2,
     q_sdes_2x1 = sdes::<_, 2, 1, 800> => 3,
     q_sdes_1x2 = sdes::<_, 1, 2, 800> => 3,
-    q_sdes_31x0 = sdes::<_, 31, 0, 516> => 32,
-    q_sdes_32x0 = sdes::<_, 32, 0, 520> => 33,
+    t_sdes_31x0 = sdes::<_, 31, 0, 516> => 32,
+    t_sdes_32x0 = sdes::<_, 32, 0, 520> => 33,
     q_tfb_pli = fb_pli::<_, true> => 2,
     q_pfb_pli = fb_pli::<_, false> => 2,
     q_tfb_sli = fb_sli::<_, true, 1> => 2,
@@ -419,8 +419,8 @@ common::register! {
     q_tfb_nack_0 = fb_nack::<_, true, 0> => 2,
     q_tfb_nack_1 = fb_nack::<_, true, 1> => 2,
     q_pfb_nack_1 = fb_nack::<_, false, 1> => 2,
-    q_tfb_nack_fixed = fb_nack_fixed::<_, false> => 5,
-    q_tfb_nack_fixed_owned = fb_nack_fixed::<_, true> => 5,
+    t_tfb_nack_fixed = fb_nack_fixed::<_, false> => 5,
+    t_tfb_nack_fixed_owned = fb_nack_fixed::<_, true> => 5,
     t_tfb_nack_2 = fb_nack::<_, true, 2> => 3,
     q_wrapped_bye = wrapped::<_, 0> => 2,
     q_wrapped_app = wrapped::<_, 1> => 2,
@@ -452,7 +452,7 @@ common::register! {
 common::register_hashmap! {
     q_pfb_fir_1 = fb_fir::<_, false, false> => 3,
     q_tfb_fir_1 = fb_fir::<_, true, false> => 3,
-    q_pfb_fir_fixed = fb_fir::<_, false, true> => 6,
+    t_pfb_fir_fixed = fb_fir::<_, false, true> => 6,
 }
 
 #[cfg(not(kani))]
